@@ -288,6 +288,17 @@ def target(start, dst_path, p):
     return (dst_path or "") + "/" + "/".join(rel_of(start, p))
 
 
+def spell(p, k):
+    """Alternative spellings of the directory path p ('' is the root) handed to copy_dir."""
+    if k == 1:
+        return (p or "") + "/"
+    if k == 2:
+        return p[1:] if p else "/"
+    if k == 3:
+        return "/zz/.." + (p or "/")
+    return p or "/"
+
+
 def cond_holds(cond, src_m, dst_entry):
     """Documented condition (== Copy/CopyCond.v cond_spec). dst_entry: None | ('f', bytes, m) | ('d',)."""
     if cond == "always":
@@ -349,11 +360,12 @@ def run_case(case):
                     fs.copy.copy_fs_if(pair.src, pair.dst, case["cond"], **kw)
             elif fn in ("copy_dir", "copy_dir_if"):
                 kw = dict(walker=make_walker(wkind), on_copy=on_copy, workers=workers, preserve_time=pt)
+                sp = spell(case["src_path"], case.get("src_spelling", 0))
+                dp = spell(case["dst_path"], case.get("dst_spelling", 0))
                 if fn == "copy_dir":
-                    fs.copy.copy_dir(pair.src, case["src_path"] or "/", pair.dst, case["dst_path"] or "/", **kw)
+                    fs.copy.copy_dir(pair.src, sp, pair.dst, dp, **kw)
                 else:
-                    fs.copy.copy_dir_if(pair.src, case["src_path"] or "/", pair.dst, case["dst_path"] or "/",
-                                        case["cond"], **kw)
+                    fs.copy.copy_dir_if(pair.src, sp, pair.dst, dp, case["cond"], **kw)
             elif fn == "copy_file_if":
                 result = fs.copy.copy_file_if(pair.src, case["file"], pair.dst, case["file"], case["cond"],
                                               preserve_time=pt)
@@ -596,7 +608,8 @@ def shrink(case, sig, budget=120):
                     break
             if progress:
                 break
-    for key, val in (("workers", 0), ("preserve_time", False), ("backend", "mem-mem")):
+    for key, val in (("workers", 0), ("preserve_time", False), ("backend", "mem-mem"), ("src_spelling", 0),
+                     ("dst_spelling", 0)):
         if cur.get(key) not in (val, None):
             cand = dict(cur)
             cand[key] = val
@@ -612,7 +625,7 @@ def explore(tier, seed):
     rnd = random.Random(seed * 104729 + 19)
     thorough = tier == "thorough"
     cases = []
-    n_pairs = 700 if thorough else 70
+    n_pairs = 560 if thorough else 48
     pairs = []
     # a few hand-made pairs: every relation at least once with every src/dst time relation
     hand_src = {"/a.txt": ["f", 15, 0], "/b.bin": ["f", 15, 0], "/c.txt": ["f", 15, 0], "/sub": ["d"],
@@ -649,9 +662,11 @@ def explore(tier, seed):
                     sp = rnd.choice(sdirs)
                     ddirs = ["", "/into", "/into/new"] + [p for p in sorted(dst) if dst[p][0] == "d"]
                     dp = rnd.choice(ddirs)
-                    cases.append(dict(base, fn="copy_dir", src_path=sp, dst_path=dp, preserve_time=pt, workers=workers))
+                    ss, ds = rnd.choice([0, 0, 1, 2, 3]), rnd.choice([0, 0, 1, 2, 3])
+                    cases.append(dict(base, fn="copy_dir", src_path=sp, dst_path=dp, preserve_time=pt, workers=workers,
+                                      src_spelling=ss, dst_spelling=ds))
                     cases.append(dict(base, fn="copy_dir_if", src_path=sp, dst_path=dp, cond=rnd.choice(CONDITIONS),
-                                      preserve_time=pt, workers=workers))
+                                      preserve_time=pt, workers=workers, src_spelling=ss, dst_spelling=ds))
                     for newer in (False, True):
                         cases.append(dict(base, fn="mirror", copy_if_newer=newer, preserve_time=pt, workers=workers))
             # copy_file_if on every source file (quick: a sample), all five conditions
@@ -707,6 +722,8 @@ def coverage_of(cases, failures, sigs):
             h("walker", c["walker"])
         if "cond" in c:
             h("condition", c["cond"])
+        if "src_spelling" in c:
+            h("copy_dir path spelling (src,dst)", "%d,%d" % (c["src_spelling"], c["dst_spelling"]))
         h("preserve_time", bool(c.get("preserve_time")))
         h("workers", c.get("workers", 0))
         h("source_nodes", min(len(c["src"]), 12))
